@@ -157,25 +157,39 @@ Definition observe_top (h : heap) (t : topo) : jv :=
     end) (t_bonds t) in
   JL [JL chains; JL atoms_order; JL res_order; jnat (t_numAtoms t); jnat (t_numRes t); JL bonds].
 
-Definition top_eqb (h : heap) (t u : topo) : jv :=
-  match abs h t, abs h u with
-  | Some a, Some b => JB (teq a b)
-  | _, _ => JNone
-  end.
-Definition hash_eqb (fl : flags) (h : heap) (t u : topo) : jv :=
-  match hash_keys fl h t, hash_keys fl h u with
-  | Some a, Some b => JB (xor_equal a b)
-  | _, _ => JNone
-  end.
+Definition opt2 {A B} (f : A -> B -> bool) (a : option A) (b : option B) : jv :=
+  match a, b with Some x, Some y => JB (f x y) | _, _ => JNone end.
 
 (* everything the harness compares: status of every op, every topology, == and hash-equality of
    every ordered pair of topologies *)
 Definition observe (fl : flags) (st : state) : jv :=
   let h := st_heap st in
   let ts := st_tops st in
+  let vs := map (abs h) ts in
+  let ks := map (hash_keys fl h) ts in
   JL [JL (map JB (rev (st_status st)));
       JL (map (observe_top h) ts);
-      JL (map (fun t => JL (map (top_eqb h t) ts)) ts);
-      JL (map (fun t => JL (map (hash_eqb fl h t) ts)) ts)].
+      JL (map (fun a => JL (map (opt2 teq a) vs)) vs);
+      JL (map (fun a => JL (map (opt2 xor_equal a) ks)) ks)].
 
 Definition run_case (c : flags * list op) : jv := observe (fst c) (run (fst c) (snd c)).
+
+(* ------------------------------------------------------------------ helpers of the correspondence run *)
+Definition flag_list (f : flags) : list bool :=
+  [f_cid_copy f; f_cid_join f; f_cid_subset f; f_repoint f; f_resseq0 f; f_remove_id f; f_del_bonds f; f_hash f;
+   f_conect_num f; f_conect_del f; f_h5_full f].
+Definition flags_of (l : list bool) : flags :=
+  let g := fun i => nth i l false in
+  Build_flags (g 0) (g 1) (g 2) (g 3) (g 4) (g 5) (g 6) (g 7) (g 8) (g 9) (g 10).
+Definition flag_repair (i : nat) (f : flags) : flags := flags_of (set_nth i true (flag_list f)).
+
+(* 0: the implementation's observation equals the all-repaired model; 1: it equals the model with
+   the detected variant vector, and the listed flags are those whose repair alone would change the
+   model's answer on this case; 2: neither *)
+Definition verdict (det : flags) (c : list op * jv * list nat) : nat * list nat :=
+  let '(ops, expected, candidates) := c in
+  if jv_eqb (run_case (flags_fix, ops)) expected then (0, [])
+  else let o := run_case (det, ops) in
+       if jv_eqb o expected
+       then (1, filter (fun i => negb (jv_eqb (run_case (flag_repair i det, ops)) o)) candidates)
+       else (2, []).
